@@ -349,7 +349,12 @@ def mutate_value(
 
     # If `transform` is provided, transform `value`
     if transform:
-        value = transform(value)
+        transformed = transform(value)
+        if transformed is not value:
+            # The transform may hand back any pre-existing object: it is not
+            # ours to mutate when applying `attr_transforms` below.
+            mutate_safe = False
+        value = transformed
 
     # If `attr_transforms` is provided, transform attributes
     if attr_transforms:
